@@ -58,6 +58,9 @@ class SimSpec:
     def prepare(self):                  # called once in the parent
         load.load_sim()
 
+    def enter_shard(self):              # called in the pool worker
+        pass
+
     def extra(self, tier, seed):        # optional enumeration phase
         return None
 
@@ -85,6 +88,7 @@ def _evaluate_factory(spec):
 
 def shard_main(shard):
     spec = _spec(shard['spec'])
+    spec.enter_shard()
     base = shard['seed']
     out = {
         'runs': 0, 'outcomes': {}, 'policies': {}, 'digests': set(),
